@@ -55,6 +55,9 @@ func SetShadow(on bool) {
 // ShadowOf returns the values currently queued in ch, oldest first (only with SetShadow(true)).
 func ShadowOf[C any](ch C) []any { return shadow[chanPtr(ch)] }
 
+// ShadowAt is ShadowOf for a channel given by its address (reflect.Value.Pointer of a chan).
+func ShadowAt(ch uintptr) []any { return shadow[ch] }
+
 func shadowPush(ch uintptr, v any) {
 	if cap := len(shadow[ch]); cap >= 0 {
 		shadow[ch] = append(shadow[ch], v)
